@@ -1,6 +1,7 @@
 """Native replayers for the element-wise quantizer properties (C01-C08)."""
 from fractions import Fraction
 
+import math
 import numpy as np
 
 from native.registry import replayer
@@ -576,3 +577,50 @@ def c10_str(d):
   if diff:
     return {"status": "confirmed", "observed": {"text": text, "options_lost": diff}}
   return {"status": "refuted", "observed": {"text": text}}
+
+
+@replayer("c08_po2")
+def c08_po2(d):
+  """quantized_po2 / quantized_relu_po2 with stochastic rounding in the training phase: many draws on a set of inputs;
+  every output must be one of the two codes adjacent to the input (codes = even exponents with quadratic_approximation)
+  and codes must be returned unchanged."""
+  import tensorflow as tf
+  from native import shims
+  from qkeras import quantizers
+  shims.install_learning_phase()
+  w = d["witness"] or {}
+  rep = w.get("__replay__") or {}
+  cls = rep["class"]
+  bits = int(rep.get("bits", w.get("bits", 6)))
+  bits = max(bits, 6)                         # a wide exponent field, so that the probes are not clipped
+  quad = bool(rep.get("quadratic"))
+  C = getattr(quantizers, cls)
+  q = C(bits, None, quadratic_approximation=quad, use_stochastic_rounding=True) if cls == "quantized_po2" else \
+      C(bits, None, 0, quadratic_approximation=quad, use_stochastic_rounding=True)
+  shims.PHASE[0] = 1
+  probes = [3.0, 0.3, 1.0, 4.0, 0.25, 5.5, 0.07, 16.0]
+  try:
+    x = float(Fraction(str(w.get("x"))))
+    if 1e-3 < abs(x) < 100:
+      probes.insert(0, abs(x))
+  except Exception:  # pylint: disable=broad-except
+    pass
+  base = 4.0 if quad else 2.0
+  for v in probes:
+    seen = set()
+    for _ in range(40):
+      out = float(np.array(q(tf.constant([v], dtype=tf.float32)))[0])
+      seen.add(out)
+    for out in seen:
+      ok = out > 0 and ((out <= v < base * out) or (out / base < v <= out))
+      lg = math.log(out, base) if out > 0 else None
+      on_grid = lg is not None and abs(lg - round(lg)) < 1e-6
+      if not (ok and on_grid):
+        return {"status": "confirmed", "observed": {"input": v, "outputs_seen": sorted(seen), "offending": out,
+                                                    "quadratic_approximation": quad, "bits": bits},
+                "expected": "one of the two codes adjacent to the input"}
+    lgv = math.log(v, base)
+    if abs(lgv - round(lgv)) < 1e-9 and seen != {v}:
+      return {"status": "confirmed", "observed": {"input_is_code": v, "outputs_seen": sorted(seen)},
+              "expected": "codes are returned unchanged"}
+  return {"status": "refuted", "observed": {"probes": probes, "draws_per_probe": 40}}
